@@ -25,7 +25,8 @@ def call_work(inp):
     f = VE.fractional_transfer if inp["op"] == "fractional" else VE.random_transfer
     prof = E.build_profile(inp["cands"], inp["ballots"])
     base = {"op": inp["op"], "cands": inp["cands"], "winner": inp["winner"], "tally": inp["tally"], "thr": inp["thr"],
-            "bag": E._abstract_bag(inp["ballots"]), "result": [], "error": "", "p": [0, 0], "_inp": inp}
+            "bag": E._abstract_bag(inp["ballots"]), "result": [], "error": "", "p": [0, 0], "_inp": inp,
+            "nonint": any(b["w"][0] % b["w"][1] != 0 for b in inp["ballots"])}
 
     def call():
         try:
